@@ -79,8 +79,8 @@ ASSUMPTIONS = [
 ]
 
 FLOORS = {
-    'quick': {'states': 6, 'transitions': 4000, 'validated': 2000, 'outcomes': 3, 'set:symbols_executed': 47, 'set:fault_types': 6, 'set:faults': 15},
-    'thorough': {'states': 6, 'transitions': 250000, 'validated': 90000, 'outcomes': 3, 'set:symbols_executed': 47, 'set:fault_types': 6, 'set:faults': 15},
+    'quick': {'states': 6, 'transitions': 4000, 'validated': 2000, 'outcomes': 3, 'set:symbols_executed': 51, 'set:fault_types': 6, 'set:faults': 15},
+    'thorough': {'states': 6, 'transitions': 250000, 'validated': 90000, 'outcomes': 3, 'set:symbols_executed': 51, 'set:fault_types': 6, 'set:faults': 15},
 }
 
 WD = 10  # seconds per library call
@@ -411,6 +411,29 @@ sym('PropertyValue(bad)', "cssutils.css.PropertyValue('1px }')")(lambda cx: cssu
 sym('PropertyValue(1;)', "cssutils.css.PropertyValue('1;')")(lambda cx: cssutils.css.PropertyValue('1;'))
 sym('MediaList(bad)', "cssutils.stylesheets.MediaList('screen, 3')")(lambda cx: cssutils.stylesheets.MediaList('screen, 3'))
 sym('MediaList(and()', "cssutils.stylesheets.MediaList('screen/*c*/and(')")(lambda cx: cssutils.stylesheets.MediaList('screen/*c*/and('))
+
+
+# -- edits of objects that a list parser has created (they were built in the hand-back mode of the production parser)
+def _list_query(text):
+    s = cssutils.parseString('@media tv, print and (color){a{color:red}}')
+    q = s.cssRules[0].media[0]
+    q.mediaText = text
+    return s
+
+
+sym('list-derived-MediaQuery.mediaText=(bad)', "s = cssutils.parseString('@media tv, print and (color){a{color:red}}')\ns.cssRules[0].media[0].mediaText = 'tv 3d'")(lambda cx: _list_query('tv 3d'))
+sym('list-derived-MediaQuery.mediaText=(list)', "s = cssutils.parseString('@media tv, print and (color){a{color:red}}')\ns.cssRules[0].media[0].mediaText = 'tv, print'")(lambda cx: _list_query('tv, print'))
+sym('list-derived-MediaQuery.mediaText=(ok)')(lambda cx: _list_query('tv and (color)'))
+
+
+def _list_item(text):
+    ml = cssutils.stylesheets.MediaList('tv, print')
+    ml[1] = text
+    ml.item(0)
+    return ml
+
+
+sym('MediaList[1]=(bad)', "ml = cssutils.stylesheets.MediaList('tv, print')\nml[1] = 'tv and ('")(lambda cx: _list_item('tv and ('))
 
 
 # -- serialisation under temporarily changed and restored preferences
